@@ -67,7 +67,9 @@ META = {
         "and in a real document at every stream offset that puts the 4096-byte buffer boundary on each byte of 'ID <data>LF EI LF'; "
         "inline-filtered: the sample patterns as inline images with abbreviated keys through {none, AHx, A85, RL, LZW, Fl}, exported; "
         "inline-streams: the program cut at operator boundaries into every 2- and 3-stream /Contents array (the image wholly inside one stream), "
-        "3 payloads, BUFSIZ {4096, 1, 5}; inline-variants: full key names, LF after ID, EI as the last bytes of the stream, '~>EI' without white-space. "
+        "3 payloads, BUFSIZ {4096, 1, 5}, also with the image's EI as the very last bytes of a non-last stream (the next stream starts with Q); "
+        "inline-nosep: every admissible string of length 1..3 over the same alphabet, not ending in CR/LF, with EI directly after the last data "
+        "byte (no separator), BUFSIZ {4096, 1, 3}; inline-variants: full key names, LF after ID, EI as the last bytes of the stream, '~>EI' without white-space. "
         "A case = one image (or one inline program run); non-trivial = at least one pixel / data byte / following glyph was compared. "
         "states = generated documents and programs, transitions = individual observations compared with the model (one exported file, "
         "one LTImage attribute set, one inline payload, one glyph list), traces = cases whose every observation was compared."
@@ -799,6 +801,8 @@ def shards(tier):
     for c in COLOURS:
         out.append(("inline-filtered", c))
     out.append(("inline-variants",))
+    for i in range(len(INLINE_SIGMA)):
+        out.append(("inline-nosep", i))
     for di in range(len(STREAM_DATA)):
         for nstreams in (2, 3):
             out.append(("inline-streams", di, nstreams))
@@ -1081,6 +1085,36 @@ def run_shard(shard, tier, st):
                                 ev += judge_bmp("<inline>.bmp", files[fn], colour, w, h, samples)
                             _record(st, ev, {"family": "inline-export", "pdf": pdf, "colour": colour, "w": w, "h": h, "samples": samples, "chain": chain})
         st.sample({"family": fam, "colour": colour, "chain": chain, "program": prog})
+    elif fam == "inline-nosep":
+        # EI directly after the last data byte (ISO 32000-1 8.9.7 asks for no separator); data ending in CR / LF is left
+        # to the separator families (the EOL-stripping convention cannot serve both)
+        rig = InlineRig()
+        ref = rig.run(PRE + b"q 30 0 0 30 50 50 cm\nQ\n" + POST)[1]
+        first = INLINE_SIGMA[shard[1]]
+        maxlen = min(b["inline_len"], 3)
+        cands = [first + b"".join(t) for n in range(0, maxlen) for t in itertools.product(INLINE_SIGMA, repeat=n)]
+        for data in cands:
+            if data[-1:] in (b"\r", b"\n"):
+                continue
+            mm = _END.search(data + b"EI\n")
+            if mm is None or mm.start() != len(data):
+                st.add("inline_strings_containing_end_marker_not_generated", 1)
+                continue
+            ctx = ":no-separator-before-EI" + (":data-ends-in-E-or-EI" if data.endswith((b"E", b"EI")) else "")
+            prog = inline_program(data, len(data), 1, before_ei=b"")
+            for bs in (4096, 1, 3):
+                try:
+                    obs = rig.run(prog, bs)
+                except Exception as e:  # noqa
+                    obs = e
+                viols, outcome = judge_inline(obs, ref, data, len(data), 1, "G8", context=ctx)
+                st.states += 1
+                st.transitions += 2
+                st.traces += 1
+                st.case(None, nontrivial=True, outcome=outcome)
+                _record(st, viols, {"family": "inline", "program": prog, "bufsiz": bs, "data": data, "w": len(data), "h": 1, "colour": "G8", "decoded": None, "full_doc": False, "context": ctx})
+        if shard[1] == 0:
+            st.sample({"family": fam, "data": data, "program": prog})
     elif fam == "inline-streams":
         rig = InlineRig()
         data = STREAM_DATA[shard[1]]
@@ -1090,17 +1124,25 @@ def run_shard(shard, tier, st):
         for cuts in itertools.combinations(range(1, n), shard[2] - 1):
             bounds = (0,) + cuts + (n,)
             streams = [b"\n".join(pieces[a:z]) + b"\n" for a, z in zip(bounds, bounds[1:])]
-            for bs in (4096, 1, 5):
+            layouts = [(streams, ":contents-array")]
+            img_at = next(k for k, p_ in enumerate(pieces) if p_.startswith(b"BI "))
+            if img_at + 1 in cuts:
+                # the image's EI is the very last thing in a non-last stream; the next stream starts with "Q"
+                k = list(bounds).index(img_at + 1) - 1
+                bare = list(streams)
+                bare[k] = bare[k][:-1]
+                layouts.append((bare, ":EI-ends-a-non-last-stream"))
+            for (streams, ctx), bs in itertools.product(layouts, (4096, 1, 5)):
                 try:
                     obs = rig.run(streams, bs)
                 except Exception as e:  # noqa
                     obs = e
-                viols, outcome = judge_inline(obs, ref, data, len(data), 1, "G8", context=":contents-array")
+                viols, outcome = judge_inline(obs, ref, data, len(data), 1, "G8", context=ctx)
                 st.states += 1
                 st.transitions += 2
                 st.traces += 1
-                st.case(None, nontrivial=True, outcome=outcome + (cuts,))
-                _record(st, viols, {"family": "inline", "program": streams, "bufsiz": bs, "data": data, "w": len(data), "h": 1, "colour": "G8", "decoded": None, "full_doc": False, "context": ":contents-array", "ref_program": b"\n".join(p for p in pieces if not p.startswith(b"BI ")) + b"\n"})
+                st.case(None, nontrivial=True, outcome=outcome + (cuts, ctx))
+                _record(st, viols, {"family": "inline", "program": streams, "bufsiz": bs, "data": data, "w": len(data), "h": 1, "colour": "G8", "decoded": None, "full_doc": False, "context": ctx, "ref_program": b"\n".join(p for p in pieces if not p.startswith(b"BI ")) + b"\n"})
         if shard[1:] == (1, 2):
             st.sample({"family": fam, "streams": streams, "data": data})
     elif fam == "inline-variants":
